@@ -65,6 +65,9 @@ func pkgPath(rel string) string {
 
 func resetTerms() {
 	termTab = map[string]*T{}
+	termTabK = map[termKey]*T{}
+	boolT, boolF = nil, nil
+	smallBV = [65][256]*T{}
 	termSeq = 0
 	bindSeq = 0
 	baSeq = 0
@@ -104,6 +107,10 @@ func runItem(P *Program, it Item) (res *ItemResult) {
 	m.trace = it.Trace
 	if it.MaxSteps > 0 {
 		m.maxSteps = it.MaxSteps
+	}
+	if smtLogFile != "" {
+		f, _ := os.Create(smtLogFile)
+		m.sol.Log = f
 	}
 	m.sampleMax = it.Samples
 	m.maxPaths = it.MaxPaths
